@@ -1,12 +1,12 @@
 """Hostile value alphabet and the msdparser-gap domain guard (DESIGN 4.1, 4.2)."""
 import re
 
-META = ["#", ":", ";", "\\", "/", "//", "\\\\", "\\:", "\\;", "::", ";;", ":;", "#:", "=", ","]
+META = ["#", ":", ";", "\\", "/", "//", "\\\\", "\\:", "\\;", "::", ";;", ":;", "#:", "=", ",", "{", "}", "{}", "{0}", "%s", "{x"]
 BREAKS = ["\n", "\r\n", "\n\n"]
 BLANKS = [" ", "\t", "\u00a0", "\u2028", "\x1c", "  "]
 WORDS = ["a", "b", "Song", "Title", "x.png", "gfx\\banner.png", "0", "1", "", "0.000=120.000", "dance-single",
          "TIME=1.5:END=2:MODS=*2 drunk", "120.000:240.000", "*", "http://example.com/a", "C:\\Songs\\x.ogg"]
-EXOTIC = ["\u732b", "\U0001f3b5", "e\u0301", "\u200f", "\ufeff", "\u00e9", "\uac00", "\u30c6\u30b9\u30c8", "\x00", "\x7f"]
+EXOTIC = ["\u732b", "\U0001f3b5", "e\u0301", "\u200f", "\ufeff", "\u00e9", "\uac00", "\u30c6\u30b9\u30c8", "\x00", "\x7f", "\uffff", "\ufffe", "\u212a"]
 
 # keys one character away from the keywords the loaders and the format detection look for
 NEAR_MISS_KEYS = ["VERSIONS", "VERSION2", "VERSIONINFO", "VERSION ", "VERSIO", "AVERSION", " VERSION", "VERSION\t", "VERSION_",
@@ -88,11 +88,13 @@ def rkey(rng, avoid=()):
         if r < 0.5:
             k = rng.choice(["TITLE", "ARTIST", "FOO", "BAR", "CUSTOM", "X", "GENRE", "CREDIT", "MUSIC", "BANNER",
                             "BGCHANGES", "ANIMATIONS", "STOPS", "FREEZES", "ATTACKS", "DISPLAYBPM", "OFFSET", "BPMS",
-                            "SELECTABLE", "KEYSOUNDS", "LASTBEATHINT", "NOTES2", "VERSION", "WARPS", "LABELS"])
+                            "SELECTABLE", "KEYSOUNDS", "LASTBEATHINT", "NOTES2", "VERSION", "WARPS", "LABELS",
+                            # near the two multi-value keys: substrings of them, a look-alike (KELVIN SIGN for K), braces
+                            "BPM", "DISPLAY", "ATTACK", "A", "S", "ATTAC\u212aS", "SONG{ID}", "{}", "K{0}"])
         elif r < 0.8:
             k = "".join(rng.choice("ABCXYZ019_") for _ in range(rng.randint(1, 6)))
         else:
-            k = "".join(rng.choice(["A", "K", " ", ":", ";", "\\", "/", "\u732b", "\u00c9", "=", "\n", "\t", ""]) for _ in range(rng.randint(0, 4)))
+            k = "".join(rng.choice(["A", "K", " ", ":", ";", "\\", "/", "\u732b", "\u00c9", "=", "\n", "\t", "", "{", "}", "\uffff"]) for _ in range(rng.randint(0, 4)))
         k = k.upper()
         if k.upper() != k or "#" in k or k in avoid or "///" in k:
             continue
